@@ -8,6 +8,7 @@ import (
 
 	"pmc/internal/comp"
 	"pmc/internal/harness"
+	"pmc/internal/model"
 )
 
 // C15 — labels are exported or local exactly as written or as documented by default.
@@ -128,7 +129,48 @@ func runC15(tier string) int {
 			r.Sample(map[string]interface{}{"modifiers": m, "label_modifier": lm, "optimize": opt, "labels_checked": len(seen), "generated_labels": kinds})
 		}
 	})
+	// the last clause over the control-flow program families: in every program, with the script written without a
+	// modifier, as (global) and as (local), every sub-label is local, the script label follows the modifier, and every
+	// label written in the script is local
+	plans, swN := enginePlans(tier)
+	forEachEngineProgram(r, plans, swN, func(w int, p engineProgram) {
+		scripts := []*model.Script{p.Script}
+		base := model.Print(scripts)
+		user := model.UserLabels(scripts)
+		for mi, mod := range c15Mods {
+			src := strings.Replace(base, "script S {", "script"+mod+" S {", 1)
+			for _, opt := range []bool{true, false} {
+				res := comp.Compile(src, comp.Opts{Optimize: opt})
+				if res.Err != nil || res.Panic != "" {
+					continue
+				}
+				r.Add("evaluations", 1)
+				r.Add("family_programs_x_modifier_x_optimize", 1)
+				if mi > 0 {
+					r.Add("nontrivial", 1)
+				}
+				for _, l := range asmLines(res.Out) {
+					if !l.isLabel {
+						continue
+					}
+					want := false
+					kind := "generated label"
+					if l.name == "S" {
+						want, kind = c15Global(mod, true), "script"
+					} else if user[l.name] {
+						kind = "label written in the script"
+					}
+					if l.global != want {
+						s2 := src
+						r.Report(harness.Violation{Sig: "C15:family:" + strings.ReplaceAll(kind, " ", "_"), Summary: fmt.Sprintf("%s, script%s, optimize=%v: %s %s exported=%v, want %v", p.Desc, mod, opt, kind, l.name, l.global, want), Replay: map[string]interface{}{"source": src, "optimize": opt, "output": res.Out},
+							Recheck: func() bool { return comp.Compile(s2, comp.Opts{Optimize: opt}).Out == res.Out }})
+						break
+					}
+				}
+			}
+		}
+	})
 	r.Assume("documented defaults: script, text, mapscripts global; movement, mart local; labels inside scripts local; every generated label local")
 	return r.Finish(r.Get("evaluations"), r.Get("nontrivial"),
-		"the full finite product {script, text, movement, mart, mapscripts} x {no modifier, (global), (local)} (3^5) x in-script label modifier (3) x 2 statement orders x optimize on/off x 3 sets of names for the explicit data statements (plain, and shaped like generated hoisted / sub-label / map-script names of scripts that do not exist); the file forces every generated label kind (sub-labels of if/while/switch, hoisted text and movement, inline map script, table, table inline script and their hoisted data); every label definition of the output is classified by the naming scheme and must have the expected scope; non-trivial = at least one explicit modifier")
+		"the full finite product {script, text, movement, mart, mapscripts} x {no modifier, (global), (local)} (3^5) x in-script label modifier (3) x 2 statement orders x optimize on/off x 3 sets of names for the explicit data statements (plain, and shaped like generated hoisted / sub-label / map-script names of scripts that do not exist); the file forces every generated label kind (sub-labels of if/while/switch, hoisted text and movement, inline map script, table, table inline script and their hoisted data); every label definition of the output is classified by the naming scheme and must have the expected scope; plus every program of the control-flow families (C01 / C03 / C04 bounds) x script modifier x optimize: script label per modifier, every other label local; non-trivial = at least one explicit modifier")
 }
